@@ -43,8 +43,9 @@ structure Cfg where
   srcFields : Bool      -- TDM has source data fields
   preFields : Bool      -- TDM has pre-event-selection static data fields
   staticFields : Bool   -- TDM has static data fields
-  cachePd : Bool        -- MultiDimGridPDF(cache_pd_values=...)
+  cachePd : Bool        -- SignalMultiDimGridPDF(cache_pd_values=...) of the grid PDFs of the signal PDF set
   parabola : Bool       -- Parabola1D… (else Linear1D…) interpolation
+  cacheBkg : Bool       -- BackgroundMultiDimGridPDF(cache_pd_values=...)
 deriving Repr, DecidableEq
 
 /-- number of `_trial_data_state_id += 1` executed by `initialize_trial` -/
@@ -272,7 +273,7 @@ def interpCall (W : World D S F) (hit : F → F → Bool) (cfg : Cfg) (st : St D
 def evalC (W : World D S F) (hit : F → F → Bool) (cfg : Cfg) (st : St D S F) (q : Query F) :
     St D S F × Out F :=
   let r := interpCall W hit cfg st q
-  let b := pdGet cfg.cachePd st.sid (W.bkg st.data st.src) st.bkgc 0
+  let b := pdGet cfg.cacheBkg st.sid (W.bkg st.data st.src) st.bkgc 0
   let o := finish cfg.parabola q r.1 b.1
   ({ st with interp := r.2.1, pdc := r.2.2.1, bkgc := b.2.1, nsg := some (st.data, st.src, q) },
    ⟨o.1, o.2, r.2.2.2.1, r.2.2.2.2, b.2.2⟩)
